@@ -1,9 +1,10 @@
-import MypyVerif.Proofs.ConfigChain
+import MypyVerif.Proofs.ConfigStrings
 import MypyVerif.Model.ConfigTable
 /-!
 # C17 — configuration sources are equivalent; precedence is as documented
 
-Property theorems only (helpers: Proofs/Config.lean, Proofs/ConfigCache.lean, Proofs/ConfigChain.lean).
+Property theorems only (helpers: Proofs/Config.lean, Proofs/ConfigCache.lean, Proofs/ConfigChain.lean,
+Proofs/ConfigStrings.lean).
 
 Part 1 (hand-written model, unbounded quantifiers): every table of sections `parse_config_file` can build
 (distinct keys, components `*` or star-free names), every module name, every option.
@@ -140,6 +141,33 @@ theorem config_over_default (dflt : Opts) (ini : Changes) (cli : List CliArg) (k
   rw [applyCli_untouched cli _ k h]
   simp only [setAll]
   cases ini.lookup k <;> rfl
+
+/-- **the documented list, end to end** (ordinary options): inline comments (later first), the concrete
+    section, unstructured wildcards (last in the file first), structured wildcards (most specific first),
+    then the global options — which are the command line over the config file's `[mypy]` section over the
+    defaults (`cli_over_config`, `config_over_default`). -/
+theorem full_precedence (dflt : Opts) (ini : Changes) (cli : List CliArg) (secs : Sections) (m : List Str)
+    (inline : List Changes) (k : Str) (hv : ValidSecs secs) (hm : ValidMod m)
+    (hd : k ≠ kDisable) (he : k ≠ kEnable) :
+    (fileOptions (globalOptions dflt ini cli) secs m inline).get k =
+      ((firstDefined k inline.reverse).or
+        (firstDefined k (concreteChain secs (modPat m) ++ (unstructChain secs m).reverse ++
+          (structChain secs (modPat m)).reverse))).getD ((globalOptions dflt ini cli).get k) := by
+  unfold fileOptions
+  cases inline with
+  | nil =>
+    simp only [List.isEmpty_nil, if_true, List.reverse_nil, firstDefined, Option.none_or]
+    exact resolution_first_defined _ secs m k hv hm
+  | cons ln rest =>
+    simp only [List.isEmpty_cons, Bool.false_eq_true, if_false]
+    rw [applyChanges_get, mergeInline_lookup _ k hd he, resolution_first_defined _ secs m k hv hm]
+    cases firstDefined k (ln :: rest).reverse <;> simp
+
+/-- the model reads section names as lists of components; this loses nothing: a name determines its
+    components, and the two string tests of `build_per_module_cache` are the component-wise ones -/
+theorem section_names_faithful (p q : Pat) (hp : ValidPat p) (hq : ValidPat q) :
+    (p.str = q.str → p = q) ∧ strUnstructured p.str = p.unstructured ∧ strEndsDotStar p.str = p.endsDotStar :=
+  ⟨pat_str_inj p q hp hq, unstructured_str p hp, endsDotStar_str p hp⟩
 
 /-! ### non-vacuity: concrete instances of the hypotheses, evaluated -/
 
